@@ -586,7 +586,7 @@ def p1(h, st):
         h.done()
         return
     h.check("no exception", e is None, detail=str(e))
-    h.check("the loop body was entered once for the generic term", proto.iterations == 1)
+    h.shape("the loop body was entered once for the generic term", proto.iterations == 1)
     h.done()
 
 
